@@ -46,6 +46,11 @@ def cases(tier):
         for zy in (0, 1, 2):
             cs.append(dict(kind='layout', mods=2, max_iter=1, zone=[zx, zy], twice=False))
     cs.append(dict(kind='layout', mods=2, max_iter=1, zone=[1, 1], twice=True))
+    # starts far outside the die on a wide and on a narrow die: whatever the forces are, one step cannot bring the module back, so the
+    # result is decided by the clamp alone (counterexamples of these cases replay concretely although the forces are abstracted)
+    for far in ('above', 'below', 'left', 'right'):
+        for shape in ('wide', 'narrow'):
+            cs.append(dict(kind='layout', mods=2, max_iter=1, zone=None, far=far, shape=shape, twice=False))
     if tier == 'thorough':
         for zx in (0, 1, 2):
             for zy in (0, 1, 2):
@@ -81,6 +86,11 @@ def build(I, case, tag=''):
         nets = [['FX', 'S0', 'S1', I.real('w0', 0.01, 10)]]
     net = Netlist({'Modules': mods, 'Nets': nets})
     die = Die({'width': W, 'height': H}, net)
+    if case.get('far'):
+        c = net.get_module('S0').center
+        I.assume(W >= 24 if case['shape'] == 'wide' else W <= 3)
+        I.assume({'above': c.y >= 40, 'below': c.y <= -30, 'left': c.x <= -30, 'right': c.x >= W + 40}[case['far']])
+        I.assume(And(c.x >= -45, c.x <= 145, c.y >= -45, c.y <= 145))
     z = case.get('zone')
     if z is not None:  # partition of the start positions of S0 (jointly exhaustive over the cases)
         c = net.get_module('S0').center
